@@ -211,8 +211,7 @@ def run_family_k(prop, tier, seed, report, scratch):
         log("  race detector: %d free-running executions in %.1fs" % (nrace_runs, time.time() - t0))
         report.coverage["race_detector_runs"] = nrace_runs
 
-    if prop == "C13":
-        extra_race_runs(prop, tier, seed, report, scratch, specdir, racebin)
+    extra_race_runs(prop, tier, seed, report, scratch, specdir, racebin)
     report.coverage.update({"states": states, "transitions": transitions, "traces_validated_against_impl": nscen,
                             "records_validated": nrec, "exhaustive": False, "layerP_operators": P_OPS[prop] + ["C13_NoRace"],
                             "layerM_operators": M_OPS, "model_operators": MODEL_INV[prop] + MODEL_PROP[prop], "samples": samples})
@@ -233,6 +232,12 @@ def extra_race_runs(prop, tier, seed, report, scratch, specdir, racebin):
     iters = 30 if tier == "quick" else 300
     su = [["A", 2, 1], ["A", 2, 1], ["A", 2, 1], ["A", 2, 1]]
     groups = [
+        # more refused candidates than the verification concurrency (2): the merge still returns, also next to the merge
+        # in the other direction
+        ("refused_batches", [[2], []],
+         [{"setup": su, "procs": [op("J", 1, 2), op("J", 2, 1)], "sched": []},
+          {"setup": su, "procs": [op("J", 1, 2), op("A", 2, n=1), op("J", 1, 2)], "sched": []}]),
+    ] if prop == "C14" else [
         ("denied_join", [[2], []],
          [{"setup": su, "procs": [op("J", 1, 2), op("R", 1, acc="Values")], "sched": []},
           {"setup": su, "procs": [op("J", 1, 2), op("J", 1, 2)], "sched": []},
@@ -249,7 +254,8 @@ def extra_race_runs(prop, tier, seed, report, scratch, specdir, racebin):
     ]
     env = dict(os.environ, GORACE="halt_on_error=0 exitcode=0")
     for name, denied, items in groups:
-        hcfg = {"NR": 2, "Writer0": [1, 2], "Lid": ["X", "X"], "Fn": "LWW", "Denied": denied, "Codec": "cbor", "Seed": seed, "Audit": ""}
+        hcfg = {"NR": 2, "Writer0": [1, 2], "Lid": ["X", "X"], "Fn": "LWW", "Denied": denied, "Codec": "cbor", "Seed": seed, "Audit": "",
+                "Concurrency": 2 if name == "refused_batches" else 0}
         cfgj = os.path.join(scratch, name + ".cfg.json")
         json.dump(hcfg, open(cfgj, "w"))
         sp = os.path.join(scratch, name + ".scen")
